@@ -39,7 +39,16 @@ RULE = ("pairs of documents x array modes {position, value} x AoH modes {positio
         "their section - before, between, after the entries that match: judged by the clauses with the matching entries only, "
         "(10) ONE Differ taken through 2-3 comparisons (right documents: identical copy / edited / unrelated, in any order), "
         "get_report() read 0-2 times after each: every report read is judged by the clauses for (left, right of that step); "
-        "a clause failing there and not on a fresh Differ's report for the same pair is a violation.  "
+        "a clause failing there and not on a fresh Differ's report for the same pair is a violation, "
+        "(11) pairs of documents whose mappings / sets have keys that are NOT text or integers - floats (1.5, 2.0, 0.75, -0.5, "
+        "10.25), timestamps, dates, as the library's loader yields them - at any depth, beside text / integer keys and, half of "
+        "the time, beside nested keys that spell the parts of such a key's text (1: {5: ...} next to 1.5; the date: {the time: ...} "
+        "next to a timestamp); identical / 1-3 edits (value replaced, entry or member removed, added, renamed to another such key, "
+        "reordered) / unrelated; two thirds under positional comparison, the rest under any mode mix.  Outside the Lean documents "
+        "(text and integer keys): judged on the real code alone by every DIRECT check below - in particular the entry's path, read "
+        "segment by segment as the path parser delivers it (a KEY segment names the one key / member written that way), must lead to "
+        "the entry's value in the document it speaks about; keys that are == but written differently (1 / true / 1.0) or written "
+        "alike (1.5 / '1.5') are not put into one pair.  "
         "DIRECT checks on the real report, independent of the model: every entry true of the two documents and every "
         "leaf covered (positional modes), clean <=> data-equal (all modes), every left/right index of a synchronisation "
         "accounted for exactly once, exit status 0 <=> clean.  Correspondence: the report as a sorted list of "
